@@ -104,13 +104,13 @@ theorem getAttr_strong {o : Obj} {name : String} {g : Option Got} (ho : ObjInRan
       rfl
     · subst h; exact ho.otype
     · split at h
-      · simp only [pure, Except.pure, Except.ok.injEq] at h; subst h
+      · simp only [Except.ok.injEq] at h; subst h
         cases ha : o.alg with
         | none => trivial
         | some a => have := ho.alg; rw [ha] at this; exact this
       · simp [ierr] at h
     · split at h
-      · simp only [pure, Except.pure, Except.ok.injEq] at h; subst h
+      · simp only [Except.ok.injEq] at h; subst h
         cases ha : o.len with
         | none => trivial
         | some a =>
@@ -120,7 +120,7 @@ theorem getAttr_strong {o : Obj} {name : String} {g : Option Got} (ho : ObjInRan
           omega
       · simp [ierr] at h
     · split at h
-      · simp only [pure, Except.pure, Except.ok.injEq] at h; subst h
+      · simp only [Except.ok.injEq] at h; subst h
         cases ha : o.subtype with
         | none => trivial
         | some a => have := ho.subtype; rw [ha] at this; exact this
@@ -128,7 +128,7 @@ theorem getAttr_strong {o : Obj} {name : String} {g : Option Got} (ho : ObjInRan
     · subst h; exact (rfl : avalStrong (.text _) = true)
     · split at h
       · rename_i m hm
-        simp only [pure, Except.pure, Except.ok.injEq] at h; subst h
+        simp only [Except.ok.injEq] at h; subst h
         have := ho.mask; rw [hm, optAll_some] at this
         simp only [i32, decide_eq_true_eq, Int.ofNat_eq_natCast] at this
         simp only [gotStrong, avalStrong, decide_eq_true_eq]
@@ -136,7 +136,7 @@ theorem getAttr_strong {o : Obj} {name : String} {g : Option Got} (ho : ObjInRan
       · simp [ierr] at h
     · split at h
       · rename_i s hs
-        simp only [pure, Except.pure, Except.ok.injEq] at h; subst h
+        simp only [Except.ok.injEq] at h; subst h
         have := ho.state; rw [hs] at this; exact this
       · simp [ierr] at h
     · subst h; exact ho.date
